@@ -23,6 +23,8 @@ type Case struct {
 	Batch     []int `json:"batch,omitempty"`     // sizes of the ModifyRequests the ops are packed into
 	Fatal     int   `json:"fatal,omitempty"`     // 1-based index (among ops) of an op with a fatal election stamp (0 = none)
 	FatalKind int   `json:"fatalkind,omitempty"` // 1 = no election id, 2 = no entry
+	// Every > 1: L1 bulk histories read the whole RIB back only every n-th step
+	Every int `json:"every,omitempty"`
 }
 
 func setup() {
@@ -40,7 +42,7 @@ func runCase(c Case) *ev.Verdict {
 	case "L2":
 		return runL2(c)
 	}
-	v, tr := l1.Run(c.H, l1.Opts{P: "C01", Trusted: true})
+	v, tr := l1.Run(c.H, l1.Opts{P: "C01", Trusted: true, ObserveEvery: c.Every})
 	classify(v, tr)
 	return v
 }
@@ -187,11 +189,19 @@ func TestCampaign(t *testing.T) {
 		cfg.AliasLabels = true
 		cfg.MaxLen = 40
 		rapid.Check(t, func(rt *rapid.T) {
-			c := Case{Level: "L1", H: hgen.DrawHistory(rt, cfg)}
+			var c Case
 			var wild string
-			c.H, wild = hgen.MaybeRename(rt, c.H, 20)
+			if rapid.IntRange(0, 29).Draw(rt, "bulk?") == 7 {
+				c = Case{Level: "L1", H: hgen.DrawBulk(rt, hgen.DefaultBulk()), Every: 16}
+				wild = "bulk"
+			} else {
+				c = Case{Level: "L1", H: hgen.DrawHistory(rt, cfg)}
+				c.H, wild = hgen.MaybeRename(rt, c.H, 20)
+			}
 			v := runCase(c)
-			if wild != "" {
+			if wild == "bulk" {
+				v.Class("bulk-history")
+			} else if wild != "" {
 				v.Class("renamed:" + wild)
 			}
 			col.Check(rt, ev.JSON(c), v)
